@@ -41,6 +41,18 @@ func isReservedHeader(k string) bool {
 		return false
 	}
 }
+
+// isReservedResponseHeader reports whether k cannot be set through handler
+// metadata: the reserved gRPC keys and the keys the HTTP transport sets itself.
+func isReservedResponseHeader(k string) bool {
+	switch k {
+	case "trailer", "content-encoding":
+		return true
+	default:
+		return isReservedHeader(k)
+	}
+}
+
 func isWhitelistedHeader(k string) bool {
 	switch k {
 	case ":authority", "user-agent":
@@ -92,7 +104,7 @@ func newIncomingContext(ctx context.Context, header http.Header) (context.Contex
 
 func setOutgoingHeader(header http.Header, md metadata.MD) {
 	for k, vs := range md {
-		if isReservedHeader(k) {
+		if isReservedResponseHeader(k) {
 			continue
 		}
 
